@@ -9,3 +9,5 @@ open Pynenc.C02
 #print axioms bodyInv_step
 #print axioms bodyInv_init
 #print axioms no_double_body
+#print axioms reregistration_changes_nothing
+#print axioms registration_creates_registered
